@@ -294,6 +294,24 @@ func init() {
 		}
 		return r
 	})
+	reg("strings.LastIndex", func(ex *Exec, fr *frame, pos token.Pos, args []value) value {
+		s, t := args[0].(*Str), args[1].(*Str)
+		ex.needBytes(s, t)
+		r := ex.b.I64(-1)
+		for i := 0; i+len(t.b) <= len(s.b); i++ {
+			r = ex.b.Ite(ex.strMatchAt(s, t, i), ex.b.I64(int64(i)), r)
+		}
+		return r
+	})
+	reg("strings.LastIndexByte", func(ex *Exec, fr *frame, pos token.Pos, args []value) value {
+		s := args[0].(*Str)
+		ex.needBytes(s)
+		r := ex.b.I64(-1)
+		for i := 0; i < len(s.b); i++ {
+			r = ex.b.Ite(ex.b.Eq(s.b[i], args[1].(*smt.Term)), ex.b.I64(int64(i)), r)
+		}
+		return r
+	})
 	reg("strings.IndexByte", func(ex *Exec, fr *frame, pos token.Pos, args []value) value {
 		return ex.strIndexOf(args[0].(*Str), &Str{b: []*smt.Term{args[1].(*smt.Term)}})
 	})
@@ -862,13 +880,10 @@ func (ex *Exec) fmtValue(verb byte, a value) *Str {
 	}
 	switch v := it.v.(type) {
 	case *Str:
-		if verb == 'v' || verb == 's' {
-			// named string types with a String/Error method would be formatted through it
-			if hasStringer(ex, it.t) {
-				return nil
-			}
+		if (verb == 'v' || verb == 's') && !hasStringer(ex, it.t) {
 			return v
 		}
+		// named string types with a String/Error method are formatted through it (below)
 	case *smt.Term:
 		if _, isInt := isInteger(it.t); isInt && (verb == 'v' || verb == 'd') {
 			if verb == 'v' && hasStringer(ex, it.t) {
